@@ -1,6 +1,7 @@
 (* Property C11 — statements only.  Every theorem is closed by [exact] of a lemma from
    Proofs/Shard_proofs.v; the statements are pinned again in /verif/pins/C11.v. *)
 From SV Require Import Base.Prelude Model.Shard Proofs.Shard_proofs.
+From SV Require Import Model.ShardConnect Proofs.ShardConnect_proofs.
 From Coq Require Import Permutation String.
 Open Scope N_scope.
 
@@ -100,6 +101,149 @@ Theorem C11_parse_rejects : forall s n m rs rn rm shard nr,
   exists e, parse_shard_info (Some (s :: rs)) (Some (n :: rn)) (Some (m :: rm)) = Err e.
 Proof. exact parse_shard_info_rejects. Qed.
 
+(* ---- the only production caller of the iterator: open_connection_to_shard_aware_port ----
+   (Model/ShardConnect.v; [avail] = the outcome class of open_connection per source port, an
+   oracle; [pivot] = the iterator's random pivot, an oracle) *)
+
+(* the loop, for an arbitrary port list: it calls open_connection on a prefix of the list in list
+   order, every port before the last tried one was address-unavailable, it stops at the FIRST
+   port whose outcome is anything else and returns that outcome; NoSourcePortForShard only after
+   the whole list was tried *)
+Theorem C11_connect_loop : forall ports avail,
+  match connect_loop ports avail with
+  | Conn p => exists a b, ports = a ++ p :: b /\ tried ports avail = a ++ [p] /\
+                          (forall q, In q a -> avail q = AddrUnavailable) /\ avail p = Connected
+  | Failed p e => exists a b, ports = a ++ p :: b /\ tried ports avail = a ++ [p] /\
+                          (forall q, In q a -> avail q = AddrUnavailable) /\ avail p = OtherError e
+  | NoSourcePortForShard => tried ports avail = ports /\
+                          (forall q, In q ports -> avail q = AddrUnavailable)
+  end.
+Proof. exact connect_loop_char. Qed.
+
+(* the port a successful shard-aware connection uses lies in [lo,hi] and is congruent to the shard *)
+Theorem C11_connect_conn : forall n s lo hi pivot avail p,
+  0 < n -> s < n -> lo <= hi -> hi <= u16_max ->
+  open_shard_aware n s lo hi pivot avail = Conn p ->
+  lo <= p <= hi /\ p mod n = s /\ avail p = Connected.
+Proof. intros n s lo hi pivot avail p Hn Hs Hle Hhi. exact (open_sa_conn n s lo hi Hn Hs Hle Hhi pivot avail p). Qed.
+
+Theorem C11_connect_failed : forall n s lo hi pivot avail p e,
+  0 < n -> s < n -> lo <= hi -> hi <= u16_max ->
+  open_shard_aware n s lo hi pivot avail = Failed p e ->
+  lo <= p <= hi /\ p mod n = s /\ avail p = OtherError e.
+Proof. intros n s lo hi pivot avail p e Hn Hs Hle Hhi. exact (open_sa_failed n s lo hi Hn Hs Hle Hhi pivot avail p e). Qed.
+
+(* NoSourcePortForShard iff every port of the specification's set is unavailable ... *)
+Theorem C11_connect_none_iff : forall n s lo hi pivot avail,
+  0 < n -> s < n -> lo <= hi -> hi <= u16_max ->
+  open_shard_aware n s lo hi pivot avail = NoSourcePortForShard <->
+  (forall p, lo <= p <= hi -> p mod n = s -> avail p = AddrUnavailable).
+Proof. intros n s lo hi pivot avail Hn Hs Hle Hhi. exact (open_sa_none_iff n s lo hi Hn Hs Hle Hhi pivot avail). Qed.
+
+(* ... in particular when none exists *)
+Theorem C11_connect_none_empty : forall n s lo hi pivot avail,
+  0 < n -> s < n -> lo <= hi -> hi <= u16_max ->
+  (forall p, lo <= p <= hi -> p mod n <> s) ->
+  open_shard_aware n s lo hi pivot avail = NoSourcePortForShard.
+Proof. intros n s lo hi pivot avail Hn Hs Hle Hhi. exact (open_sa_none_empty n s lo hi Hn Hs Hle Hhi pivot avail). Qed.
+
+(* the attempts are a prefix of the iterator's output (iterator order), every candidate port is
+   tried at most once, only ports of the specification's set are tried *)
+Theorem C11_connect_tried : forall n s lo hi pivot avail,
+  0 < n -> s < n -> lo <= hi -> hi <= u16_max ->
+  (exists rest, iter_ports n s lo hi pivot = tried_shard_aware n s lo hi pivot avail ++ rest) /\
+  NoDup (tried_shard_aware n s lo hi pivot avail) /\
+  (forall p, In p (tried_shard_aware n s lo hi pivot avail) -> lo <= p <= hi /\ p mod n = s).
+Proof. intros n s lo hi pivot avail Hn Hs Hle Hhi. exact (tried_sa n s lo hi Hn Hs Hle Hhi pivot avail). Qed.
+
+(* the loop gives up only after an attempt from EVERY port of the set *)
+Theorem C11_connect_tried_all : forall n s lo hi pivot avail p,
+  0 < n -> s < n -> lo <= hi -> hi <= u16_max ->
+  open_shard_aware n s lo hi pivot avail = NoSourcePortForShard ->
+  lo <= p <= hi -> p mod n = s -> In p (tried_shard_aware n s lo hi pivot avail).
+Proof. intros n s lo hi pivot avail p Hn Hs Hle Hhi. exact (tried_sa_all_when_none n s lo hi Hn Hs Hle Hhi pivot avail p). Qed.
+
+(* the end-to-end acceptor (driver, E lines) says exactly the property's sentence for the
+   observation point "source port of shard-aware connections accepted by the mock node", plus
+   "never a port the harness holds bound" *)
+Theorem C11_connect_accept_iff : forall n lo hi pre obs,
+  accept_conns n lo hi pre obs = true <->
+  (forall port shard, In (port, shard) obs ->
+     lo <= port <= hi /\ port mod n = shard /\ ~ In port pre).
+Proof. exact accept_conns_iff. Qed.
+
+(* no false alarm: every outcome of the model's loop in an environment in which the pre-bound
+   ports are address-unavailable is accepted *)
+Theorem C11_connect_accept_complete : forall n s lo hi pre pivot avail p,
+  0 < n -> s < n -> lo <= hi -> hi <= u16_max ->
+  respects pre avail ->
+  open_shard_aware n s lo hi pivot avail = Conn p ->
+  accept_conn n lo hi pre p s = true.
+Proof. exact accept_conn_complete. Qed.
+
+(* the acceptor is not looser than the model: an accepted observation is the model's outcome for
+   some pivot and some environment that respects the pre-bound ports *)
+Theorem C11_connect_accept_model : forall n lo hi pre port shard,
+  0 < n -> hi <= u16_max ->
+  accept_conn n lo hi pre port shard = true ->
+  exists pivot avail, respects pre avail /\
+    open_shard_aware n shard lo hi pivot avail = Conn port.
+Proof. exact accept_conn_model. Qed.
+
+(* starved shards (every port of the set pre-bound, or none exists): the loop can only end in
+   NoSourcePortForShard, and no accepted shard-aware connection serves such a shard *)
+Theorem C11_connect_starved_iff : forall n s lo hi pre, lo <= hi + 1 ->
+  starvedb n s lo hi pre = true <->
+  (forall p, lo <= p <= hi -> p mod n = s -> In p pre).
+Proof. exact starvedb_iff. Qed.
+
+Theorem C11_connect_starved_none : forall n s lo hi pre pivot avail,
+  0 < n -> s < n -> lo <= hi -> hi <= u16_max ->
+  starvedb n s lo hi pre = true -> respects pre avail ->
+  open_shard_aware n s lo hi pivot avail = NoSourcePortForShard.
+Proof. exact starved_none. Qed.
+
+Theorem C11_connect_accept_not_starved : forall n lo hi pre port shard,
+  accept_conn n lo hi pre port shard = true -> starvedb n shard lo hi pre = false.
+Proof. exact accept_conn_not_starved. Qed.
+
+(* non-vacuity of the connect-loop theorems: ports 65523, 65528, 65533 serve shard 3 of 5 *)
+Definition ex_env (unavail : list N) (bad : list N) : N -> outcome :=
+  fun q => if memb q unavail then AddrUnavailable else if memb q bad then OtherError 7 else Connected.
+Example C11_ex_connect :
+  (* pivot 2: 65533 and 65523 are in use, the third attempt succeeds *)
+  open_shard_aware 5 3 65520 65535 2 (ex_env [65523; 65533] []) = Conn 65528 /\
+  tried_shard_aware 5 3 65520 65535 2 (ex_env [65523; 65533] []) = [65533; 65523; 65528] /\
+  (* pivot 0: stops at the first success, 65533 is never tried *)
+  open_shard_aware 5 3 65520 65535 0 (ex_env [65523] []) = Conn 65528 /\
+  tried_shard_aware 5 3 65520 65535 0 (ex_env [65523] []) = [65523; 65528] /\
+  (* another error is handed through although a later port would have worked *)
+  open_shard_aware 5 3 65520 65535 0 (ex_env [65523] [65528]) = Failed 65528 7 /\
+  tried_shard_aware 5 3 65520 65535 0 (ex_env [65523] [65528]) = [65523; 65528] /\
+  (* every port in use / no port exists *)
+  open_shard_aware 5 3 65520 65535 1 (ex_env [65523; 65528; 65533] []) = NoSourcePortForShard /\
+  tried_shard_aware 5 3 65520 65535 1 (ex_env [65523; 65528; 65533] []) = [65528; 65533; 65523] /\
+  open_shard_aware 100 37 65500 65535 0 (ex_env [] []) = NoSourcePortForShard /\
+  tried_shard_aware 100 37 65500 65535 0 (ex_env [] []) = [] /\
+  open_shard_aware 3 1 65534 65535 0 (ex_env [] []) = NoSourcePortForShard.
+Proof. repeat split; vm_compute; reflexivity. Qed.
+
+(* the acceptor and the starvation predicate accept and REJECT *)
+Example C11_ex_connect_accept :
+  accept_conn 5 65520 65535 [65523; 65533] 65528 3 = true /\
+  accept_conn 5 65520 65535 [65523; 65533] 65523 3 = false /\   (* pre-bound *)
+  accept_conn 5 65520 65535 [] 65518 3 = false /\               (* below lo *)
+  accept_conn 5 65520 65530 [] 65533 3 = false /\               (* above hi *)
+  accept_conn 5 65520 65535 [] 65529 3 = false /\               (* not congruent *)
+  accept_conn 5 65520 65535 [] 65528 4 = false /\               (* serves another shard *)
+  accept_conns 5 65520 65535 [65523] [(65528, 3); (65530, 0)] = true /\
+  accept_conns 5 65520 65535 [65523] [(65528, 3); (65523, 3)] = false /\
+  starvedb 5 3 65520 65535 [65523; 65528; 65533] = true /\
+  starvedb 5 3 65520 65535 [65523; 65533] = false /\
+  starvedb 100 37 65500 65535 [] = true /\
+  starvedb 5 3 65520 65535 [] = false.
+Proof. repeat split; vm_compute; reflexivity. Qed.
+
 (* non-vacuity: concrete states meeting the hypotheses, with non-trivial outputs *)
 Example C11_ex_shard : shard_of 7 12 (-42)%Z = 6 /\ shard_of 65535 0 (2 ^ 63 - 1)%Z = 65534.
 Proof. split; vm_compute; reflexivity. Qed.
@@ -145,3 +289,16 @@ Print Assumptions C11_accept_iter_complete.
 Print Assumptions C11_accept_draw_sound.
 Print Assumptions C11_parse_ok.
 Print Assumptions C11_parse_rejects.
+Print Assumptions C11_connect_loop.
+Print Assumptions C11_connect_conn.
+Print Assumptions C11_connect_failed.
+Print Assumptions C11_connect_none_iff.
+Print Assumptions C11_connect_none_empty.
+Print Assumptions C11_connect_tried.
+Print Assumptions C11_connect_tried_all.
+Print Assumptions C11_connect_accept_iff.
+Print Assumptions C11_connect_accept_complete.
+Print Assumptions C11_connect_accept_model.
+Print Assumptions C11_connect_starved_iff.
+Print Assumptions C11_connect_starved_none.
+Print Assumptions C11_connect_accept_not_starved.
